@@ -64,11 +64,27 @@ def resub_model(I, args, kw):
     return r
 
 
+class CompiledRe:
+    """re.compile(pattern): an object whose .sub(repl, s) is re.sub(pattern, repl, s) (same assumed contract)"""
+
+    def __init__(self, pattern):
+        self.pattern = pattern
+
+    def truth(self, I):
+        return True
+
+    def sym_method(self, I, name, args, kw):
+        if name == "sub":
+            return resub_model(I, [self.pattern] + list(args), kw)
+        return NotImplemented
+
+
 def common_config(prefix):
     c = Config()
     c.ob_prefix = prefix
     c.ext_models["os.path.join"] = join_model
     c.ext_models["re.sub"] = resub_model
+    c.ext_models["re.compile"] = lambda I, a, k: CompiledRe(a[0])
     c.ext_models["os.path.exists"] = lambda I, a, k: I.fresh("bool", "exists")
     c.ext_models["os.path.dirname"] = lambda I, a, k: I.fresh("str", "dirname")
     c.ext_models["os.path.abspath"] = lambda I, a, k: I.fresh("str", "abspath")
